@@ -8,7 +8,8 @@ CFG = {
                      "theories/Formats/StlProofs.v", "theories/Formats/Pts.v", "theories/Formats/PtsProofs.v",
                      "theories/Formats/Splat.v", "theories/Formats/Spz.v", "theories/Formats/PlyRead.v",
                      "theories/Formats/PrefixProofs.v", "theories/Formats/PrefixCost.v",
-                     "theories/Formats/PrefixSurplus.v", "theories/Formats/PrefixAll.v", "theories/Formats/PrefixChunked.v"],
+                     "theories/Formats/PrefixSurplus.v", "theories/Formats/PrefixAll.v", "theories/Formats/PrefixChunked.v",
+                     "theories/Formats/PrefixBlocks.v", "theories/Formats/PrefixText.v"],
     "level_text": "Coq theorems for every file and every cut, packaged as prefix_all_formats (error, or only trailing framing cut and the identical result; .splat exactly the complete records), no_placeholder_all_formats derived from it, and reader independence (run_chunked_eq_run: a decoder written over the read-exactly-n primitive depends only on the byte sequence, for any chunking; PLY binary, STL, .splat models are such programs); per format: binary STL (every strict prefix rejected), "
                   ".splat (a k-byte prefix yields exactly the k/32 splats wholly present, error iff k mod 32 <> 0), SPZ "
                   "(every strict prefix of the inflated stream rejected; gzip as a hypothesis), PLY binary and ASCII "
